@@ -162,15 +162,24 @@ func c08Replay(w json.RawMessage) (string, string) {
 // directed long histories
 func c08Directed(kind string) (string, string) {
 	switch kind {
-	case "descents-130":
+	case "descents-130", "descents-130-first", "descents-130-loadfail":
 		a := app.New("deep")
-		a.Node("root", "root", codec.Ins{Op: codec.HALT}, codec.Ins{Op: codec.INCMP, Sym: "aa", Sel: "1"})
+		// -first: the engine has a first function; -loadfail: an external function has failed earlier in the session
+		a.First = kind == "descents-130-first"
+		a.Node("root", "root", codec.Ins{Op: codec.HALT}, codec.Ins{Op: codec.INCMP, Sym: "aa", Sel: "1"}, codec.Ins{Op: codec.INCMP, Sym: "ee", Sel: "2"})
+		a.Node("ee", "ee", codec.Ins{Op: codec.LOAD, Sym: "bad", N: 0}, codec.Ins{Op: codec.HALT}, codec.Ins{Op: codec.INCMP, Sym: "_", Sel: "0"})
+		a.Func("bad", func(e *app.Env, sym string, in []byte, l string) (resource.Result, error) {
+			return resource.Result{}, fmt.Errorf("backend down")
+		})
 		a.Node("aa", "aa", codec.Ins{Op: codec.HALT}, codec.Ins{Op: codec.INCMP, Sym: "bb", Sel: "1"}, codec.Ins{Op: codec.INCMP, Sym: "_", Sel: "0"})
 		a.Node("bb", "bb", codec.Ins{Op: codec.HALT}, codec.Ins{Op: codec.INCMP, Sym: "aa", Sel: "1"}, codec.Ins{Op: codec.INCMP, Sym: "_", Sel: "0"})
 		a.Node("_catch", "catch", codec.Ins{Op: codec.HALT}, codec.Ins{Op: codec.INCMP, Sym: "_", Sel: "*"})
 		for _, mode := range []string{"long-lived", "persisted"} {
 			s := newSess(a, mode, engine.Config{})
 			ins := []string{""}
+			if kind == "descents-130-loadfail" {
+				ins = append(ins, "2", "0", "0")
+			}
 			for i := 0; i < 135; i++ {
 				ins = append(ins, "1")
 			}
@@ -179,7 +188,7 @@ func c08Directed(kind string) (string, string) {
 			}
 			for k, in := range ins {
 				if sig, msg, _ := c08Step(s, in, mode); sig != "" {
-					return sig, fmt.Sprintf("%s: 135 descents through a 2-cycle then ascents, request %d: %s", mode, k, msg)
+					return sig, fmt.Sprintf("%s (%s): 135 descents through a 2-cycle then ascents, request %d: %s", mode, kind, k, msg)
 				}
 			}
 		}
@@ -244,7 +253,7 @@ func c08Run(c *mc.Ctx) {
 	apps := corpus()
 	c.Note("corpus_apps", fmt.Sprint(len(apps)))
 	c.Note("corpus_skipped_ill_formed", strings.Join(corpusSkipped, " | "))
-	for _, kind := range []string{"descents-130", "browse-300", "result-70000"} {
+	for _, kind := range []string{"descents-130", "descents-130-first", "descents-130-loadfail", "browse-300", "result-70000"} {
 		if !c.Mine() {
 			continue
 		}
